@@ -132,7 +132,7 @@ class CompilerModel:
                 return SymEx.apply(self, e, f, args, kw, st, func)
         sx = SX(self.repo, universe=uni,
                 inline=lambda f: f.cls is comp and f.name not in ('compile_body', 'compile_expression', '_debug'),
-                opaque=lambda n: n in ('compile_body', 'compile_expression'))
+                opaque=lambda n: n in ('compile_body', 'compile_expression'), max_depth=4)
         outs = sx.run(cb)
         self._rules = outs
         return outs
@@ -264,6 +264,8 @@ class CompilerModel:
         args = call.args[1].items if len(call.args) > 1 and isinstance(call.args[1], ListV) else []
         name = args[0] if args else None
         path = None
+        if isinstance(name, New) and name.args and isinstance(name.args[0], Const) and isinstance(name.args[0].v, str):
+            return name.args[0].v           # a concrete goal (bounded evaluation on concrete bodies)
         if isinstance(name, New) and name.args and isinstance(name.args[0], Sym):
             path = name.args[0].path
         if path is None:
@@ -288,9 +290,22 @@ def _feasible(st):
     return all(v for v in st.classes.values())
 
 
+class NotCompositional(AnalysisError):
+    pass
+
+
 def translate_rules(cm):
     """-> list of dicts(name, constraints, lhs, rhs, issues, state, value) and fall-through cases"""
-    outs = cm.body_rules()
+    if getattr(cm, '_rules_error', None):
+        raise NotCompositional(cm._rules_error)
+    try:
+        outs = cm.body_rules()
+    except (AnalysisError, RecursionError) as e:
+        cm._rules_error = str(e)[:160] or type(e).__name__
+        raise NotCompositional(cm._rules_error)
+    if len(outs) > 200:
+        cm._rules_error = 'compile_body inspects the code returned by its recursive calls (%d symbolic paths)' % len(outs)
+        raise NotCompositional(cm._rules_error)
     markers = cm.marker_classes()
     cb = cm.comp.methods['compile_body']
     p = cb.params[1]
@@ -301,6 +316,12 @@ def translate_rules(cm):
             continue
         issues = []
         lhs = cm.src_of_sym(st, p, markers)
+        # a path that depends on the *shape of the code a recursive call returned* is not a rewrite rule: the
+        # induction hypothesis says what that code does, not what it looks like
+        shape_dep = [k for k, _ in st.truth if 'compile_body<' in k] + [k for k, _, _ in st.eqs if 'compile_body<' in k]
+        if shape_dep:
+            rules.append(dict(constraints=st.describe(), lhs=lhs, rhs=None, issues=issues, state=st, value=v, conditional=shape_dep[0]))
+            continue
         if isinstance(v, CallV) and v.name == 'raise':
             rules.append(dict(constraints=st.describe(), lhs=lhs, rhs=None, issues=issues, state=st, value=v, raises=True))
             continue
@@ -388,19 +409,166 @@ def mentions(t, kind):
     return False
 
 
+def concrete_bodies(depth, goals=('p', 'q', 'r', 's')):
+    """all clause bodies over calls, true, fail, !, ',', ';', '->', '\\+' up to the given depth;
+    no cut inside a condition or a negated goal"""
+    def has_cut(t):
+        return t == ('Cut',) or (isinstance(t, tuple) and any(has_cut(x) for x in t[1:] if isinstance(x, tuple)))
+
+    def gen(d, gi):
+        if d == 1:
+            if gi < len(goals):
+                yield ('call', goals[gi]), gi + 1
+            yield ('True',), gi
+            yield ('Fail',), gi
+            yield ('Cut',), gi
+            return
+        yield from gen(d - 1, gi)
+        for a, g1 in list(gen(d - 1, gi)):
+            if not has_cut(a):
+                yield ('Neg', a), g1
+            for b, g2 in gen(d - 1, g1):
+                yield ('Conj', a, b), g2
+                yield ('Disj', a, b), g2
+                if not has_cut(a):
+                    yield ('IfThen', a, b), g2
+    seen = set()
+    for t, _ in gen(depth, 0):
+        if t not in seen:
+            seen.add(t)
+            yield t
+
+
+def body_to_new(cm, t):
+    inv = {v: k for k, v in BODY_ROLES.items()}
+    k = t[0]
+    if k == 'call':
+        atom = New(cm._class('Atom'), [Const(t[1])])
+        functor = New(cm._class('Functor'), [atom, ListV([])])
+        return New(cm._class('Predicate'), [functor])
+    cls = cm._class(inv[k])
+    if cls is None:
+        raise AnalysisError('no class for %s' % k)
+    return New(cls, [body_to_new(cm, x) for x in t[1:]])
+
+
+def _bounded_worker(args):
+    """evaluate compile_body on a slice of the concrete bodies; -> (bodies, runs, problems)"""
+    repo_root, depth, scope, lo, step = args
+    from .model import Repo
+    cm = CompilerModel(Repo(repo_root))
+    comp = cm.comp
+    cb = comp.methods['compile_body']
+    markers = cm.marker_classes()
+
+    class SX(SymEx):
+        def apply(self, e, f, a, kw, st, func):
+            if isinstance(f, tuple) and f[0] == 'bound' and cm.is_allocator(f[1]) is not None:
+                st.fresh += 1
+                return [(st, Fresh(cm.is_allocator(f[1]), st.fresh))]
+            return SymEx.apply(self, e, f, a, kw, st, func)
+    sx = SX(cm.repo, inline=lambda f: f.cls is comp and f.name not in ('compile_expression', '_debug'),
+            opaque=lambda n: n in ('compile_expression',), max_depth=200)
+    import sys
+    import itertools as _it
+    sys.setrecursionlimit(max(sys.getrecursionlimit(), 20000))
+    n = runs = 0
+    problems = []
+    for i, t in enumerate(concrete_bodies(depth)):
+        if i % step != lo:
+            continue
+        n += 1
+        try:
+            outs = sx.run(cb, [body_to_new(cm, t)])
+        except AnalysisError as e:
+            return n, runs, [('error', 'bounded evaluation of compile_body on %s: %s' % (sem.show(t), e))]
+        if len(outs) != 1:
+            return n, runs, [('error', 'compile_body does not evaluate deterministically on the concrete body %s (%d outcomes)' % (sem.show(t), len(outs)))]
+        st, v = outs[0]
+        if isinstance(v, CallV) and v.name == 'raise':
+            continue
+        issues = []
+        try:
+            code = cm.code_of_value(st, v, markers, issues) if v is not None else None
+        except AnalysisError as e:
+            code = None
+            issues.append(str(e))
+        if code is None or issues:
+            if len(problems) < 3:
+                problems.append(('viol', sem.show(t), 'compile_body does not produce target code for the body %s: %s' % (
+                    sem.show(t), '; '.join(issues) or 'returns None')))
+            continue
+        names, conds = sem.leaves(t)
+        gs = sorted(names)
+        for combo in _it.product(range(scope + 1), repeat=len(gs)):
+            env = {g: (k, False) for g, k in zip(gs, combo)}
+            runs += 1
+            a = sem.run_src(t, env)
+            b = sem.run_tgt(code, env)
+            if a != b:
+                if len(problems) < 3:
+                    problems.append(('viol', sem.show(t), 'the body  %s  compiles to  %s , which does not behave like it: with %s the source '
+                                     'yields "%s" but the compiled code yields "%s"' % (
+                                         sem.show(t), sem.show_code(code), ', '.join('%s: %d solution(s)' % (g, k[0]) for g, k in sorted(env.items())),
+                                         sem._show_trace(a), sem._show_trace(b))))
+                break
+    return n, runs, problems
+
+
+def rule_compiler_bounded(cm, rep, rid, depth=3, scope=2, jobs=16):
+    rep.rule(rid, 'bounded whole-function check: compile_body (helpers and recursive calls inlined) is symbolically evaluated on '
+                  'every concrete clause body up to depth %d; the resulting target code must have the same trace as the reference '
+                  'semantics of the body for every behaviour (0..%d solutions) of its goals' % (depth, scope))
+    where = cm.comp.methods['compile_body'].loc()
+    import os
+    depth = int(os.environ.get('VERIF_BOUNDED_DEPTH') or depth)
+    import multiprocessing
+    total = sum(1 for _ in concrete_bodies(depth))
+    import os
+    jobs = int(os.environ.get('VERIF_INNER_JOBS') or jobs)
+    jobs = max(1, min(jobs, total // 50 or 1))
+    tasks = [(cm.repo.root, depth, scope, i, jobs) for i in range(jobs)]
+    if jobs == 1:
+        results = [_bounded_worker(tasks[0])]
+    else:
+        from concurrent.futures import ProcessPoolExecutor
+        with ProcessPoolExecutor(max_workers=jobs) as pool:
+            results = list(pool.map(_bounded_worker, tasks))
+    n = sum(r[0] for r in results)
+    runs = sum(r[1] for r in results)
+    problems = [p for r in results for p in r[2]]
+    errs = [p for p in problems if p[0] == 'error']
+    viols = [p for p in problems if p[0] == 'viol']
+    for _, body, msg in sorted(viols, key=lambda p: len(p[1]))[:4]:
+        rep.violation(rid, 'compile_body(%s)' % body, msg, where)
+    if errs and not viols:
+        raise AnalysisError(errs[0][1])
+    rep.extra['bounded_bodies'] = n
+    rep.extra['bounded_runs'] = runs
+    if not viols:
+        rep.ok(rid, 'compile_body:bounded', '%d concrete bodies x behaviours = %d runs agree with the reference semantics' % (n, runs), where)
+    rep.minimum('concrete bodies evaluated', n, 50)
+
+
 def rule_body_rules(cm, rep, rid, which, scope=2):
     """which: 'cut' (rules handling ! or moving a cutting sub-body), 'ctl' (the rest), 'all'"""
     rep.rule(rid, 'every rewrite/base rule extracted from compile_body (pattern => target code, recursive calls kept as '
                   'CB<.> under the induction hypothesis) produces the same trace - yields with the stack of active '
                   '(goal, solution) pairs, and how the clause ended - as the reference semantics of the pattern, for every '
                   'assignment of behaviours (0..%d solutions, then exhausted or cut; no cut in conditions/negations) to its variables' % scope)
-    rules, falls, markers = translate_rules(cm)
+    try:
+        rules, falls, markers = translate_rules(cm)
+    except (AnalysisError, RecursionError) as e:
+        rep.note(rid, 'rule extraction is not possible (%s): compile_body is not a set of compositional rewrite rules; only the bounded '
+                      'whole-function check decides this tree' % (str(e)[:120] or type(e).__name__))
+        rep.ok(rid, 'compile_body:rules', 'not compositional - see the bounded check', None, nontrivial=False)
+        return [], [], []
     rep.minimum('rules extracted from compile_body', len(rules), 18)
     n = 0
     total_models = 0
     for r in rules:
         name = sem.show(r['lhs'])
-        is_cut = mentions(r['lhs'], 'Cut') or mentions(r['rhs'], 'YieldBreak') if r['rhs'] is not None else mentions(r['lhs'], 'Cut')
+        is_cut = mentions(r['lhs'], 'Cut') or (r['rhs'] is not None and mentions(r['rhs'], 'YieldBreak'))
         if which == 'cut' and not (is_cut or _moves_subbody(r)):
             continue
         if which == 'ctl' and is_cut:
@@ -410,6 +578,10 @@ def rule_body_rules(cm, rep, rid, which, scope=2):
         where = '%s:%d' % (cm.comp.module.relpath, cm.comp.methods['compile_body'].node.lineno)
         if r.get('raises'):
             rep.ok(rid, key, 'raises (nothing is emitted)', where)
+            continue
+        if r.get('conditional'):
+            rep.note(rid, 'case %s of compile_body depends on the shape of recursively compiled code (%s): not a rewrite rule, decided by '
+                          'the bounded whole-function check only' % (name, r['conditional'][:70]), where)
             continue
         if r.get('broken'):
             if _reachable_from_source(cm, r, markers):
@@ -456,7 +628,10 @@ def _reachable_from_source(cm, r, markers):
 def rule_exhaustive(cm, rep, rid):
     rep.rule(rid, 'compile_body is exhaustive over the body classes the flow analysis says can reach it (and, under a '
                   'conjunction, over the classes of its left operand): the implicit "return None" is unreachable')
-    rules, falls, markers = translate_rules(cm)
+    try:
+        rules, falls, markers = translate_rules(cm)
+    except (AnalysisError, RecursionError):
+        rules, falls, markers = [], [], []
     cb = cm.comp.methods['compile_body']
     where = '%s:%d' % (cm.comp.module.relpath, cb.node.lineno)
     classes = cm.body_classes()
@@ -610,7 +785,15 @@ def mini_trees(depth, width, labels=(), goals=('p', 'q', 'r'), top=True):
         non_term = [s for s in all_s if s[0] in ('Yield', 'Foreach', 'Block')]
         for s in all_s:
             yield [s]
-        if width >= 2:
+        w = width.get(d, 1) if isinstance(width, dict) else width
+        if w == 'y':
+            # one nested statement, optionally preceded or followed by a plain yield
+            for st_ in all_s:
+                if st_[0] in ('Foreach', 'Block'):
+                    yield [st_, ('Yield',)]
+                    yield [('Yield',), st_]
+            return
+        if w >= 2:
             for a in non_term:
                 for b in all_s:
                     yield [a, b]
@@ -661,9 +844,22 @@ def rule_templates_implement_minilanguage(cm, rep, rid, depth=3, width=2, scope=
     n_trees = n_runs = 0
     where = cm.comp.module.relpath
     seen_problem = set()
-    for code in mini_trees(depth, width):
-        if limit is not None and n_trees >= limit:
-            break
+    def family():
+        if limit is None:
+            yield from mini_trees(depth, width)
+            yield from mini_trees(depth + 2, 1)
+            return
+        # quick: everything of depth 2, long narrow chains (a commit travelling through several blocks and
+        # loops), and depth 3 with one wide level
+        seen = set()
+        for fam in (mini_trees(2, 2), mini_trees(5, 1), mini_trees(3, {3: 2, 2: 1, 1: 1}), mini_trees(3, {3: 1, 2: 2, 1: 1}),
+                    mini_trees(5, {5: 1, 4: 'y', 3: 'y', 2: 1, 1: 1}), mini_trees(4, {4: 'y', 3: 'y', 2: 'y', 1: 1})):
+            for c in fam:
+                k = repr(c)
+                if k not in seen:
+                    seen.add(k)
+                    yield c
+    for code in family():
         n_trees += 1
         full = list(code) + [('Yield',)]          # the "next clause" of the same predicate
         fn = Node('YPCodeFunction', name='t', args=[], body=to_nodes(full))
@@ -914,3 +1110,99 @@ def _neg_none(st):
         if t:
             out.append((k, True))
     return out
+
+
+# ---------------------------------------------------------------------------------------------
+# list literals keep their element order
+
+
+def _nest(v):
+    """flatten ListPairTerm(h, ListPairTerm(h2, t)) / Functor('.', [h, ...]) / listpair<h, t> to ([heads], tail)"""
+    heads = []
+    cur = v
+    while True:
+        if isinstance(cur, New) and cur.cls.name == 'ListPairTerm' and len(cur.args) == 2:
+            heads.append(cur.args[0])
+            cur = cur.args[1]
+        elif isinstance(cur, CallV) and cur.name == 'listpair' and len(cur.args) == 2:
+            heads.append(cur.args[0])
+            cur = cur.args[1]
+        elif isinstance(cur, New) and cur.cls.name == 'Functor' and len(cur.args) == 2 and isinstance(cur.args[1], ListV) and len(cur.args[1].items) == 2:
+            heads.append(cur.args[1].items[0])
+            cur = cur.args[1].items[1]
+        else:
+            return heads, cur
+
+
+def rule_list_order(cm, rep, rid):
+    rep.rule(rid, 'the folds that build list terms keep the element order: symbolic evaluation of the [t0,t1,t2|T] case of the '
+                  'visitor gives pair(t0, pair(t1, pair(t2, T))), and makelist([a,b,c]) gives pair(a, pair(b, pair(c, nil)))')
+    vis = cm.repo.cls('yp_prolog_visitor', 'YPPrologVisitor')
+    vt = vis.methods.get('visitTerm')
+    if vt is None:
+        raise AnalysisError('anchor vanished: visitTerm')
+
+    class SX(SymEx):
+        def apply(self, e, f, args, kw, st, func):
+            if isinstance(f, tuple) and f[0] == 'bound':
+                n = f[1].name
+                if n == 'visitTermlist':
+                    return [(st, ListV([Sym('t1'), Sym('t2')]))]
+                if n == 'visitTerm':
+                    return [(st, Sym('t0'))]
+                if n == 'visitVARIABLE':
+                    return [(st, Sym('T'))]
+                if n in ('visitAtom', 'visitFunctor', '_debug'):
+                    return [(st, Sym(n))]
+            return SymEx.apply(self, e, f, args, kw, st, func)
+    sx = SX(cm.repo, inline=lambda f: False, opaque=lambda n: False)
+    outs = sx.run(vt)
+    found = 0
+    for st, v in outs:
+        heads, tail = _nest(v) if v is not None else ([], None)
+        if not heads or not isinstance(v, New) or v.cls.name != 'ListPairTerm':
+            continue
+        found += 1
+        names = [repr(h) for h in heads]
+        want = ['t0', 't1', 't2'] if len(heads) == 3 else ['t0']
+        key = 'visitTerm:[%s|T]' % ','.join(want)
+        if names == want and repr(tail) == 'T':
+            rep.ok(rid, key, 'pair(%s, T) in source order' % ', pair('.join(names), vt.loc())
+        else:
+            rep.violation(rid, key, 'the list pattern [%s|T] is built as [%s|%s]: the leading elements of a list-pair pattern are '
+                          'not in source order' % (','.join(want), ','.join(names), tail), vt.loc())
+    rep.minimum('list-pair results of visitTerm', found, 2)
+    # makelist
+    from .eng import EngineModel
+    yp = cm.repo.cls('engine', 'YP')
+    ml = yp.methods.get('makelist')
+    if ml is None:
+        raise AnalysisError('anchor vanished: YP.makelist')
+
+    class SX2(SymEx):
+        def apply(self, e, f, args, kw, st, func):
+            if isinstance(f, tuple) and f[0] == 'bound' and f[1].name == 'listpair':
+                return [(st, CallV('listpair', args))]
+            return SymEx.apply(self, e, f, args, kw, st, func)
+    sx2 = SX2(cm.repo, inline=lambda f: False, opaque=lambda n: False)
+    outs = sx2.run(ml, [ListV([Sym('a'), Sym('b'), Sym('c')])])
+    key = 'makelist:[a,b,c]'
+    okc = 0
+    for st, v in outs:
+        heads, tail = _nest(v)
+        names = [repr(h) for h in heads]
+        if names == ['a', 'b', 'c'] and 'ATOM_NIL' in repr(tail):
+            okc += 1
+        else:
+            rep.violation(rid, key, 'makelist([a,b,c]) builds [%s|%s]: element order or terminator differ from what the list literal denotes' % (
+                ','.join(names), tail), ml.loc())
+    if okc and okc == len(outs):
+        rep.ok(rid, key, 'pair(a, pair(b, pair(c, ATOM_NIL)))', ml.loc())
+    # compile_list keeps the order of the items
+    cl = cm.comp.methods.get('compile_list')
+    if cl is not None:
+        src = norm(cl.node)
+        if 'reversed(' in src or '[::-1]' in src or 'sorted(' in src:
+            rep.violation(rid, 'compile_list', 'the items of a list literal are reordered', cl.loc())
+        else:
+            rep.ok(rid, 'compile_list', 'items compiled in order', cl.loc())
